@@ -12,7 +12,7 @@ use std::path::Path;
 use tako::control::ServerRef;
 use tako::gateway::TaskSubmit;
 use tako::resources::ResourceDescriptor;
-use tako::{InstanceId, ItemId, JobId, JobTaskId, Map, TaskId, WorkerId};
+use tako::{InstanceId, ItemId, JobId, JobTaskId, Map, WorkerId};
 
 struct RestorerTaskInfo {
     state: JobTaskState,
@@ -52,7 +52,7 @@ fn is_task_completed(tasks: &Map<JobTaskId, RestorerTaskInfo>, task_id: JobTaskI
 
 impl RestorerJob {
     pub fn restore_job(
-        mut self,
+        self,
         job_id: JobId,
         state: &mut State,
         server_ref: &ServerRef,
@@ -77,17 +77,14 @@ impl RestorerJob {
             );
             let job = state.get_job_mut(job_id).unwrap();
 
-            new_tasks.tasks.retain_mut(|t| {
-                t.task_deps
-                    .retain(|d| !is_task_completed(&self.tasks, d.job_task_id()));
-                !is_task_completed(&self.tasks, t.id.job_task_id())
-            });
-
-            for (task_id, job_task) in job.tasks.iter_mut() {
-                if let Some(task) = self.tasks.get_mut(task_id) {
+            // Restore the state only of the tasks created by this submit. Tasks of the previous
+            // submits of the job are already restored and must not be counted again.
+            for new_task in &new_tasks.tasks {
+                let task_id = new_task.id.job_task_id();
+                if let Some(task) = self.tasks.get(&task_id) {
                     if task.crash_counter > 0 || task.instance_id.is_some() {
                         new_tasks.adjust_instance_id_and_crash_counters.insert(
-                            TaskId::new(job_id, *task_id),
+                            new_task.id,
                             (
                                 task.instance_id.map(|x| x.as_num() + 1).unwrap_or(0).into(),
                                 task.crash_counter,
@@ -101,9 +98,15 @@ impl RestorerJob {
                         JobTaskState::Canceled { .. } => job.counters.n_canceled_tasks += 1,
                         JobTaskState::Aborted { .. } => job.counters.n_aborted_tasks += 1,
                     }
-                    job_task.state = task.state.clone();
+                    job.tasks.get_mut(&task_id).unwrap().state = task.state.clone();
                 }
             }
+
+            new_tasks.tasks.retain_mut(|t| {
+                t.task_deps
+                    .retain(|d| !is_task_completed(&self.tasks, d.job_task_id()));
+                !is_task_completed(&self.tasks, t.id.job_task_id())
+            });
             if !new_tasks.tasks.is_empty() {
                 result.push(new_tasks);
             }
